@@ -56,7 +56,7 @@ def run(check):
     r = tlc.run_tlc('Pipe', cfg, workers=8)
     if r.errors or r.violated:
         raise core.MachineryError('Pipe.tla: %s' % (r.violated or r.errors)[:3])
-    scenarios, bad = parse_witnesses(r.out)
+    scenarios, bad = parse_witnesses(r)
     check.states += r.distinct
     check.transitions += r.generated
     check.tlc_runs.append({'label': 'scenarios', 'module': 'Pipe', 'constants': core._jsonable(consts),
